@@ -295,7 +295,11 @@ def impl_load_validate(doc, root_obj_factory, tmpdir, with_resave=True, prior_ro
             obs["results_all"] = ("raises", type(e).__name__)
     if with_resave:
         try:
-            obs["resave"] = cert.to_dict()
+            # through the real saving entry point and the file it writes (what "saving" means to a user)
+            path2 = os.path.join(tmpdir, "cert_saved.json")
+            cert.save_to_jsonfile(path2)
+            with open(path2) as f:
+                obs["resave"] = json.load(f)
         except BaseException as e:
             if type(e).__name__ == "Hang":
                 raise
